@@ -395,10 +395,13 @@ def DerefImpl.render (d : DerefImpl) : Toks :=
   let tr := if d.mut_ then Kind.derefMut.path else Kind.deref.path
   let ty := d.field.field.ty.toks
   let content : Toks :=
+    -- the return type is spelled as the trait's `Target` (a bare trait object as field type would
+    -- otherwise get the reference's lifetime as its object lifetime)
+    let target : Toks := angle (["Self", "as"] ++ Kind.deref.path) ++ ["::", "Target"]
     if d.mut_ then
-      ["fn", "deref_mut"] ++ paren ["&", "mut", "self"] ++ ["->", "&", "mut"] ++ ty ++ brace ["&", "mut", "self", ".", d.field.member]
+      ["fn", "deref_mut"] ++ paren ["&", "mut", "self"] ++ ["->", "&", "mut"] ++ target ++ brace ["&", "mut", "self", ".", d.field.member]
     else
-      ["type", "Target", "="] ++ ty ++ [";", "fn", "deref"] ++ paren ["&", "self"] ++ ["->", "&"] ++ ty ++
+      ["type", "Target", "="] ++ ty ++ [";", "fn", "deref"] ++ paren ["&", "self"] ++ ["->", "&"] ++ target ++
         brace ["&", "self", ".", d.field.member]
   implItem autoDerived d.generics.implToks tr (thisTyToks d.name d.generics)
     (d.wc.build fun t => t.toks ++ ":" :: tr) content
